@@ -260,6 +260,60 @@ func init() {
 	}
 	// --- os / misc
 	intrinsics["os.Getenv"] = func(ex *Exec, fn *ssa.Function, args []Value) Value { return StrConst("") }
+	// --- strings.Builder (its implementation uses unsafe): contents kept in a side table keyed by the receiver
+	sbKey := func(ex *Exec, args []Value) interface{} {
+		p, ok := args[0].(Pointer)
+		if !ok || p.L == nil {
+			ex.unsupported("strings.Builder method on nil receiver")
+		}
+		return [2]interface{}{"strings.Builder", p.L}
+	}
+	sbGet := func(ex *Exec, k interface{}) string {
+		if s, ok := ex.sideTable[k].(string); ok {
+			return s
+		}
+		return ""
+	}
+	intrinsics["(*strings.Builder).WriteString"] = func(ex *Exec, fn *ssa.Function, args []Value) Value {
+		k := sbKey(ex, args)
+		s := ex.concStr(args[1], "Builder.WriteString")
+		ex.sideTable[k] = sbGet(ex, k) + s
+		return TupleV{BVConst(uint64(len(s)), 64), IfaceV{}}
+	}
+	intrinsics["(*strings.Builder).WriteByte"] = func(ex *Exec, fn *ssa.Function, args []Value) Value {
+		k := sbKey(ex, args)
+		ex.sideTable[k] = sbGet(ex, k) + string([]byte{byte(ex.concInt(args[1], "Builder.WriteByte"))})
+		return IfaceV{}
+	}
+	intrinsics["(*strings.Builder).WriteRune"] = func(ex *Exec, fn *ssa.Function, args []Value) Value {
+		k := sbKey(ex, args)
+		r := string(rune(ex.concInt(args[1], "Builder.WriteRune")))
+		ex.sideTable[k] = sbGet(ex, k) + r
+		return TupleV{BVConst(uint64(len(r)), 64), IfaceV{}}
+	}
+	intrinsics["(*strings.Builder).Write"] = func(ex *Exec, fn *ssa.Function, args []Value) Value {
+		k := sbKey(ex, args)
+		sv := args[1].(SliceV)
+		var bs []byte
+		for i := 0; i < sv.Len; i++ {
+			bs = append(bs, byte(ex.concInt(sv.A.E[sv.Off+i].V, "Builder.Write")))
+		}
+		ex.sideTable[k] = sbGet(ex, k) + string(bs)
+		return TupleV{BVConst(uint64(len(bs)), 64), IfaceV{}}
+	}
+	intrinsics["(*strings.Builder).String"] = func(ex *Exec, fn *ssa.Function, args []Value) Value {
+		return StrConst(sbGet(ex, sbKey(ex, args)))
+	}
+	intrinsics["(*strings.Builder).Len"] = func(ex *Exec, fn *ssa.Function, args []Value) Value {
+		return BVConst(uint64(len(sbGet(ex, sbKey(ex, args)))), 64)
+	}
+	intrinsics["(*strings.Builder).Reset"] = func(ex *Exec, fn *ssa.Function, args []Value) Value {
+		ex.sideTable[sbKey(ex, args)] = ""
+		return nil
+	}
+	intrinsics["(*strings.Builder).Grow"] = func(ex *Exec, fn *ssa.Function, args []Value) Value { return nil }
+	intrinsics["golang.org/x/term.IsTerminal"] = func(ex *Exec, fn *ssa.Function, args []Value) Value { return termFalse }
+	intrinsics["runtime.GOROOT"] = func(ex *Exec, fn *ssa.Function, args []Value) Value { return StrConst("/symgo-no-goroot") }
 	intrinsics["runtime.GC"] = func(ex *Exec, fn *ssa.Function, args []Value) Value { return nil }
 }
 
